@@ -396,7 +396,19 @@ func (r *run) stepReport(op *Op) {
 		return
 	}
 	w := r.ws[op.Src]
-	val := op.L.Value(r.pt)
+	// every report hands the monitor a pointer to a value object the watcher keeps
+	if r.lastPtr == nil {
+		r.lastPtr, r.lastL = map[int]reflect.Value{}, map[int]SimLayer{}
+	}
+	var val reflect.Value
+	if prev, ok := r.lastPtr[op.Src]; ok && op.SamePtr && reflect.DeepEqual(r.lastL[op.Src], *op.L) {
+		val = prev
+		r.label("same-value-object-re-reported")
+	} else {
+		val = reflect.New(r.pt)
+		val.Elem().Set(op.L.Value(r.pt))
+		r.lastPtr[op.Src], r.lastL[op.Src] = val, *op.L
+	}
 	newSlots := append([]SimLayer{}, r.slots...)
 	newSlots[r.sc.NStatic+op.Src] = *op.L
 	st := Stack(r.sc.Defaults, newSlots)
